@@ -1,4 +1,5 @@
 import PgsVerif.Props.TieCodeC16
+import PgsVerif.Props.C16
 import PgsVerif.Generated.Code_go_uniqueNames
 /-!
 # Tie (translated code): `uniqueNames` of lang/go/name.go, whole
@@ -99,4 +100,17 @@ theorem tie_uniqueNames (fields : List FieldD) (oneofs : List String) :
     (fun s t x h => step_sim fields oneofs _ _ s t x h) (idx fields)
     (protectedNames.map (fun n => (n, true)), [], []) (protectedNames.map (fun n => (n, true)), [], []) ⟨rfl, rfl, rfl⟩
   exact ⟨key.2.1, key.2.2⟩
+/-- **C16 on the translated function**: the names the translated `uniqueNames` stores for a message's fields and oneofs are the
+    ones protoc-gen-go's algorithm (over its own camel-casing) assigns, whenever the two camel-casings agree on the message's
+    identifiers (they do on every dot-free identifier: `C16_camelCase_eq_GoCamelCase`) -/
+theorem C16_unique_names_translated (fields : List FieldD) (oneofs : List String)
+    (h : ∀ s : String, PgsGo.camelCase (bytesOfString s) = Protogen.goCamelCase (bytesOfString s)) :
+    let r := go_uniqueNames protectedNames.reverse ((idx fields).map (toFieldN fields oneofs))
+    r.1.map (·.2) = (uniqueNames Protogen.goCamelCase fields oneofs).1 ∧
+    r.2.map (·.2) = ((uniqueNames Protogen.goCamelCase fields oneofs).2).map (·.2) := by
+  intro r
+  have ht := tie_uniqueNames fields oneofs
+  have hc := C16_unique_names fields oneofs h
+  exact ⟨by rw [← hc]; exact ht.1.symm, by rw [← hc]; exact ht.2.symm⟩
+
 end Pgs.GoNames
